@@ -3,6 +3,7 @@
 import json, subprocess
 log = subprocess.check_output("git -C /repo log --reverse --format='%h %s' 10c4525..HEAD", shell=True, text=True).splitlines()
 propmap = {
+ 'batch ids come from one generator per process': 'C04 C03',
  'FlushStaged drops the staged records when the write fails': 'C11 C04',
  'checkOptions rejects an unknown index type': 'C16 C09',
  'CopyDir resolves a source directory that is a symbolic link': 'C20', 'CopyDir derives the relative path with filepath.Rel': 'C20',
